@@ -415,6 +415,11 @@ var c03Forms = []c03Form{
 	{"land", fCore, "vB && vN > 0", "bool", nil},
 	{"lor", 0, "vB || vN > 0", "bool", nil},
 	{"same-operands", 0, "vP == vP", "bool", condCmp},
+	{"cmp-zero-lt", 0, "vP < *new(τ)", "bool", condOrd},
+	{"cmp-zero-eq", 0, "vP == *new(τ)", "bool", condCmp},
+	{"cmp-zero-lit", 0, "vP != ‹Z›", "bool", condCmp},
+	{"cmp-zero-var", fCall, "func() bool {\n\tvar z τ\n\treturn z == vP\n}()", "bool", condCmp},
+	{"cmp-zero-var-ord", fCall, "func() bool {\n\tvar z τ\n\treturn z >= vP\n}()", "bool", condOrd},
 	// builtins
 	{"len-slice", fCore, "len(vS)", "int", nil},
 	{"cap-slice", 0, "cap(vS)", "int", nil},
@@ -699,4 +704,53 @@ func c03SortBySize(s []*c03Snippet) {
 		}
 		return s[i].ID < s[j].ID
 	})
+}
+
+// c03PtrRes: every expression form for every operand class once more, inside a function whose
+// result is pointer-like (*int or error) whatever the operand class is, the expression deciding
+// which value is returned: analyzers that only look at functions with pointer-like results
+// (nilness facts) see every form with every operand type.
+func c03PtrRes(stride int) []*c03Snippet {
+	var out []*c03Snippet
+	for ei := range c03Forms {
+		f := &c03Forms[ei]
+		for ri, c := range c03Classes {
+			e, ok := f.Mk(c)
+			if !ok {
+				continue
+			}
+			if stride > 1 && (ei+ri)%stride != 0 {
+				continue
+			}
+			res := "*int"
+			if (ei+ri)%2 == 1 {
+				res = "error"
+			}
+			hdr := e.Code
+			if strings.Contains(hdr, "{") {
+				hdr = "(" + hdr + ")"
+			}
+			var body string
+			if e.Typ == "bool" {
+				body = "if " + hdr + " {\nreturn vR\n}\nfor !(" + hdr + ") {\nreturn nil\n}"
+			} else {
+				body = "if x := " + hdr + "; vB {\n_ = x\nreturn vR\n}"
+			}
+			full := body + "\nreturn nil"
+			var params []string
+			for _, ev := range c03Env {
+				if c03EnvRe[ev.Name].MatchString(full) {
+					params = append(params, ev.Name+" "+c.subst(ev.Typ))
+				}
+			}
+			params = append(params, "vR "+res)
+			sn := &c03Snippet{
+				ID:   fmt.Sprintf("p/E%03d-%s.%s.%s", ei, f.Name, c.Name, strings.TrimPrefix(res, "*")),
+				Fam:  "ptrres",
+				Text: fmt.Sprintf("func F@%s(%s) %s {\n%s}\n", c.TP, strings.Join(params, ", "), res, c03Indent(full)),
+			}
+			out = append(out, c03Finish(sn))
+		}
+	}
+	return out
 }
